@@ -5,5 +5,6 @@ fn main() {
     println!("cargo:rustc-link-arg-bins=-Wl,--wrap=sqlite3_unlock_notify");
     println!("cargo:rustc-link-arg-bins=-Wl,--wrap=sqlite3_reset");
     println!("cargo:rustc-link-arg-bins=-Wl,--wrap=sqlite3_finalize");
+    println!("cargo:rustc-link-arg-bins=-Wl,--wrap=sqlite3_extended_errcode");
     println!("cargo:rerun-if-changed=build.rs");
 }
